@@ -181,6 +181,19 @@ func verifScenarioPBLMethod() {
 	x := verifNewPBL(mb, me, mp)
 	bl := x.bl
 	verifPBLInvariant(bl, "generated state")
+	// A syncer loop may be asleep on either wake-up channel: an operation that leaves a
+	// channel blocking must leave it the SAME channel (a fresh one would never wake the sleeper).
+	putCh, putBlocking := bl.blockPutWakeup.channel, bl.blockPutWakeup.isBlocking
+	relCh, relBlocking := bl.blockReleaseWakeup.channel, bl.blockReleaseWakeup.isBlocking
+	closedBefore := bl.closedForWriting
+	defer func() {
+		if putBlocking && bl.blockPutWakeup.isBlocking {
+			vnd.Assert(bl.blockPutWakeup.channel == putCh, "a put wake-up channel that somebody may be sleeping on was replaced although it stayed blocking")
+		}
+		if relBlocking && bl.blockReleaseWakeup.isBlocking {
+			vnd.Assert(bl.blockReleaseWakeup.channel == relCh, "a release wake-up channel that somebody may be sleeping on was replaced although it stayed blocking")
+		}
+	}()
 	switch vnd.Choose(6) {
 	case 0:
 		if len(bl.blocks) == 0 {
@@ -194,7 +207,14 @@ func verifScenarioPBLMethod() {
 		bl.PushBack()
 	case 2:
 		vnd.Cover("syncstarting")
-		bl.NotifySyncStarting(vnd.Choose(2) == 1)
+		final := vnd.Choose(2) == 1
+		bl.NotifySyncStarting(final)
+		// the sync that starts now covers EVERYTHING written so far - also the final one
+		vnd.Assert(bl.synchronizingEpochs == len(bl.epochHashSeeds), "a data sync was started without marking all existing epochs as being synchronized")
+		for j := range bl.blocks {
+			vnd.Assert(bl.blocks[j].synchronizingOffsetBytes == bl.blocks[j].writtenOffsetBytes, "a data sync was started without recording how much of a block had been written")
+		}
+		vnd.Assert(bl.closedForWriting == (closedBefore || final), "closed-for-writing flag not 'was closed or the final sync started'")
 	case 3:
 		vnd.Cover("synccompleted")
 		bl.NotifySyncCompleted()
